@@ -1141,6 +1141,19 @@ class Builder(object):
             cur = fr
             touched.append(cur)
             v = pname
+        elif chain.get("wrap2") and src_kind in ("call", "method", "field") and not self.avoid_has("return"):
+            # the source statement stands in a function that is called from two call sites of the same frame; only
+            # the value of the SECOND call is carried on (the source node of a non-first calling context)
+            sid = self.new_source(src_kind, 0)
+            v = self.var("s")
+            fr = Frame("func", cur.file, name=self.var("h"), params=[])
+            t = self.var("s")
+            fr.emit("%s = %s" % (t, self.source_expr(src_kind, sid, cur.file)), tag=("src", sid))
+            fr.emit("return %s" % t)
+            self.files[cur.file].frames.append(fr)
+            cur.emit("%s = %s()" % (self.var("u"), fr.name))
+            cur.emit("%s = %s()" % (v, fr.name))
+            src_label = "src:" + src_kind + ">wrapped-twice"
         else:
             sid = self.new_source(src_kind, 0)
             v = self.var("s")
@@ -1310,6 +1323,8 @@ def spec_strategy(profile=None):
                          for _ in range(npre)]
         if ch["src"] == "param":
             ch["pfile"] = {"kind": "param", "df": draw(st.sampled_from([0, 0, 1])), "xf": draw(st.sampled_from(["from", "from", "mod"]))}
+        elif draw(st.integers(0, 5)) == 0:
+            ch["wrap2"] = True
         nl = draw(st.sampled_from([0, 1, 1, 1, 1, 1, 2, 2, 3, 4][:max(2, int(profile.get("max_links", 4)) + 6)]))
         links = []
         merged = teed = False
